@@ -433,8 +433,22 @@ def r5_naming_selection(ctx):
              ("export_rust.py", "ExportConfigRust.parse"), ("export_fortran.py", "ExportConfigFortran.parse"), ("export_bash.py", "ExportConfigBash.parse")]
     for f, q in sites:
         fn = ctx.fn(CF + f, q)
+        calls = [c for c in ast.walk(fn) if isinstance(c, ast.Call) and norm(c.func) == "self._rename" and len(c.args) == 1]
+        nested = [norm(c) for c in calls if any(isinstance(x, ast.Call) and norm(x.func) == "self._rename" for x in ast.walk(c.args[0]))]
         ren = [norm(a) for a in ast.walk(fn) if isinstance(a, ast.Assign) and "self._rename(" in norm(a.value)]
-        ctx.check(ren == ["name = self._rename(name)"], CF + f, q, "the parameter name is mapped exactly once before it is emitted", detail=ren)
+        # a name handed on to another method of the exporter may be mapped there
+        delegated = [norm(c)[:60] for c in ast.walk(fn) if isinstance(c, ast.Call) and isinstance(c.func, ast.Attribute) and norm(c.func.value) in ("self", "super()")
+                     and c.func.attr != "_rename" and any(isinstance(a, ast.Name) and a.id in ("name", "key") for a in c.args)]
+        twice = len(ren) >= 2 and len({r.split(" = ")[0] for r in ren}) == 1 and not any(isinstance(x, (ast.If, ast.For)) and sum(norm(y) in ren for y in ast.walk(x) if isinstance(y, ast.Assign)) for x in [])
+        if nested:
+            ctx.violated(CF + f, q, "the parameter name is mapped exactly once before it is emitted", detail=nested, expected="one application of _rename")
+        elif len(calls) == 1:
+            ctx.holds(CF + f, q, "the parameter name is mapped exactly once before it is emitted", detail=ren or [norm(calls[0])])
+        elif not calls and not delegated:
+            ctx.violated(CF + f, q, "the parameter name is mapped exactly once before it is emitted", detail="the name is emitted without _rename",
+                         expected="name = self._rename(name)")
+        else:
+            ctx.unrecognised(CF + f, q, "the parameter name is mapped exactly once before it is emitted", f"rename calls {len(calls)}, delegated to {delegated[:2]}")
     rn = ctx.fn(CF + "export.py", "ExportConfig._rename")
     s = norm(rn).replace("\n", " ")
     ctx.form("if self.rename: return name.upper().replace(Sign.SEPARATOR, '_') else: return name" in s, CF + "export.py", "ExportConfig._rename",
